@@ -591,6 +591,10 @@ func init() {
 		checkLiteralFidelity(r, ga)
 		r.importing = "C15"
 		checkRuleRefAndClasses(r, prog, "c15")
+		// the parts looked up are the parts of this expression's text: the tree evaluated is the parse of exactly that text
+		r.importing = "C03"
+		checkASTIntegrity(r, prog, a, "c03")
+		checkTreeHandedOver(r, prog, a, "c03")
 		r.importing = ""
 		r.Technique = "typed-AST analysis of the grammar actions that produce path parts (offset rule: bytes dropped = length of the production's leading literal; pass-through and whole-match forms only), of the JSON-pointer action (pointerstructure.Parse wiring), rule-reference identity for every selector label; field-read / call census in package bexpr (spelling-blindness, no normalisation)"
 		r.Explain = "Decides: evaluation consumes Selector.Path only (no read of Selector.Type in package bexpr; a selector's text feeds error messages only; both consumers pass exactly Selector.Path to the lookup); every action whose value can become a path part returns the matched text, the matched text minus exactly the one-byte separator that starts its production, a passed-through label, or the unquoted string literal of the bracket form — no trimming, case folding or numeric normalisation; the JSON-pointer action joins its segments with '/', prefixes '/', hands that to pointerstructure.Parse, replaces Path by the parsed Parts and returns a parse error; all selector labels reference one and the same rule (so quantified collections and bodies use the same production). NOT decided: pointerstructure.Parse's RFC 6901 unescaping and pointerstructure's exact matching of parts against keys/fields (read, trusted)."
